@@ -21,7 +21,9 @@ from .refcodec import bpch
 NAME = 'ack_bpch'
 PROPERTIES = ['C18']
 
-CATS = [('IJ-AVG-$', 0), ('PEDGE-$', 10000), ('DAO-FLDS', 11000), ('BXHGHT-$', 24000)]
+CATS = [('IJ-AVG-$', 0), ('PEDGE-$', 10000), ('DAO-FLDS', 11000), ('BXHGHT-$', 24000),
+        # several categories share offset 0 (and with it the tracer rows)
+        ('IJ-24H-$', 0), ('INST-MAP', 0)]
 TRACERS = ['O3', 'NOx', 'CO', 'ISOP', 'PSURF', 'TS', 'ALK4', 'HNO3']
 SCHEDULES = ['retain', 'close', 'drop', 'drop+collect']
 
@@ -33,6 +35,8 @@ def gen_config(rng, tier):
 
 def gen_tables(rng):
     cats = rng.sample(CATS, rng.randrange(1, 3))
+    if rng.random() < 0.2:
+        cats = [('IJ-AVG-$', 0), rng.choice([('IJ-24H-$', 0), ('INST-MAP', 0)])]
     if rng.random() < 0.3:
         # older tables: category offsets in steps of 100, tracer numbers up to 150
         cats = [(c, 100 * i) for i, (c, o) in enumerate(cats)]
@@ -67,6 +71,15 @@ def gen_spec(rng):
     picks = rng.sample(tables['tracers'], rng.randrange(1, min(3, len(tables['tracers'])) + 1))
     blocks = [{'cat': t['cat'], 'tid': t['tid'], 'nl': rng.randrange(1, 4),
                'unit': rng.choice(['v/v', 'hPa', 'K', 'unitless'])} for t in picks]
+    offs0 = {c['category']: c['offset'] for c in tables['cats']}
+    for b in list(blocks):
+        twins = [c for c in offs0 if c != b['cat'] and offs0[c] == offs0[b['cat']]]
+        if twins and rng.random() < 0.6 and not any(
+                x['cat'] == twins[0] and x['tid'] == b['tid'] for x in blocks):
+            # the same tracer saved under a second category with the same offset:
+            # both resolve to one row of the tracer table
+            blocks.append({'cat': twins[0], 'tid': b['tid'], 'nl': rng.randrange(1, 4),
+                           'unit': rng.choice(['v/v', 'ppbv', 'unitless'])})
     if rng.random() < 0.25:
         # a diagnostic whose tracer has no line in tracerinfo.dat for
         # (category offset + number): the reader falls back to the bare number
@@ -116,6 +129,8 @@ def gen_spec(rng):
             # time bounds are 8-byte reals: hours that single precision cannot hold
             'tau0': rng.choice([0.0, 100.0, 140256.0, 175320.0, 175351.0 + 1.0 / 3, 140256.1]),
             'dtau': rng.choice([1.0, 24.0, 744.0, 1.0 / 3, 0.1]),
+            # time blocks need not be in chronological order (a re-run month appended later)
+            'tau_order': (rng.sample(range(nt), nt) if nt >= 2 and rng.random() < 0.2 else None),
             'modelname': rng.choice(['GEOS5_47L', 'GEOS4_30L', 'MERRA_47L']),
             'modelres': rng.choice([[5.0, 4.0], [2.5, 2.0]]),
             'halfpolar': 1, 'center180': 1, 'title': rng.choice(['stub run', 'GEOS-CHEM diag'])}
@@ -133,8 +148,10 @@ def doc_of(spec):
                 b['nl'], bnj, bni)
             base += 0.25 * n + 10.
             blocks.append({'category': b['cat'], 'tracer': b['tid'], 'unit': b['unit'],
-                           'tau0': spec['tau0'] + t * spec['dtau'],
-                           'tau1': spec['tau0'] + (t + 1) * spec['dtau'],
+                           'tau0': spec['tau0'] + (spec['tau_order'][t] if spec.get('tau_order')
+                                                   else t) * spec['dtau'],
+                           'tau1': spec['tau0'] + ((spec['tau_order'][t] if spec.get('tau_order')
+                                                    else t) + 1) * spec['dtau'],
                            'start': tuple(b.get('start', spec['start'])), 'data': a,
                            'reserved': '', 'bi': len(blocks)})
         pm = spec.get('permute')
@@ -168,7 +185,8 @@ def expected(spec, doc):
             bare = byid.get(b['tid'])
             t = {'name': bare['name'] if bare else str(b['tid']), 'scale': 1.0, 'unit': b['unit']}
         else:
-            t = tab[(b['cat'], b['tid'])]
+            offs = {c['category']: c['offset'] for c in spec['tables']['cats']}
+            t = tab.get((b['cat'], b['tid'])) or byid[offs[b['cat']] + b['tid']]
         raw = np.stack([[x for x in doc['times'][ti] if x['bi'] == bi][0]['data']
                         for ti in range(spec['nt'])])
         out['%s_%s' % (b['cat'], t['name'])] = {
